@@ -106,6 +106,101 @@ def mutate(rng, l, nkeys):
     return l
 
 
+# ---------------------------------------------------------------------- shaped rows (mode 20)
+def flatten(shape):
+    """visibility of the top-level nodes a row of this shape owns, in mount order (True = text / element,
+    False = comment: marker of an inner keyed list / Vec, placeholder of () / None)"""
+    t, args = shape[0], shape[1:]
+    if t in (0, 2):
+        return [True]
+    if t == 1:
+        return [False]
+    if t in (3, 9, 10):
+        return [x for a in args for x in flatten(a)]
+    if t in (4, 5):
+        return [x for a in args for x in flatten(a)] + [False]
+    if t == 6:
+        return flatten(args[0]) if args else [False]
+    if t in (7, 8):
+        return flatten(args[1])
+    raise ValueError(shape)
+
+
+def valid_shape(s, depth=0):
+    if not (isinstance(s, list) and s and isinstance(s[0], int)) or depth > 6:
+        return False
+    t, args = s[0], s[1:]
+    sub = lambda l: all(valid_shape(x, depth + 1) for x in l)
+    if t in (0, 1, 2):
+        return not args
+    if t == 3:
+        return len(args) in (2, 3) and sub(args)
+    if t in (4, 5):
+        return len(args) <= 4 and sub(args)
+    if t == 6:
+        return len(args) <= 1 and sub(args)
+    if t == 7:
+        return len(args) == 2 and args[0] in (0, 1) and valid_shape(args[1], depth + 1)
+    if t == 8:
+        return len(args) == 2 and args[0] in (0, 1, 2) and valid_shape(args[1], depth + 1)
+    if t == 9:
+        return len(args) in (1, 2, 3) and sub(args)
+    if t == 10:
+        return 1 <= len(args) <= 3 and sub(args)        # a node-less row is outside the property's hypothesis
+    return False
+
+
+def gen_shape(rng, depth):
+    """a row shape; every sub-view owns at least one node"""
+    if depth <= 0:
+        return rng.choice([[0], [0], [2], [1]])
+    sub = lambda: gen_shape(rng, depth - 1)
+    t = rng.choice([0, 2, 3, 3, 4, 4, 4, 5, 5, 6, 7, 8, 9, 10])
+    if t in (0, 2):
+        return [t]
+    if t == 3:
+        return [3] + [sub() for _ in range(rng.choice([2, 2, 3]))]
+    if t in (4, 5):
+        return [t] + [sub() for _ in range(rng.choice([0, 1, 2, 2, 3]))]
+    if t == 6:
+        return [6] + ([sub()] if rng.random() < 0.6 else [])
+    if t == 7:
+        return [7, rng.randint(0, 1), sub()]
+    if t == 8:
+        return [8, rng.randint(0, 2), sub()]
+    return [t] + [sub() for _ in range(rng.choice([1, 2, 2, 3]))]
+
+
+def gen_list_first_shape(rng):
+    """a row that IS a list, or starts with one (the list non-empty most of the time)"""
+    inner = [rng.choice([4, 4, 5])] + [gen_shape(rng, rng.choice([0, 0, 1])) for _ in range(rng.choice([0, 1, 2, 2, 3]))]
+    r = rng.random()
+    if r < 0.35:
+        return inner
+    if r < 0.65:
+        return [3, inner] + [gen_shape(rng, 0) for _ in range(rng.choice([1, 2]))]
+    if r < 0.75:
+        return [6, inner]
+    if r < 0.85:
+        return [7, rng.randint(0, 1), inner]
+    if r < 0.9:
+        return [8, rng.randint(0, 2), inner]
+    if r < 0.95:
+        return [rng.choice([9, 10]), inner, gen_shape(rng, 0)]
+    return [4, inner, gen_shape(rng, 1)]        # a keyed list whose first row is a keyed list
+
+
+def gen_shaped(rng):
+    p = rng.choice([1, 2, 2, 3, 3, 4])
+    shapes = [gen_list_first_shape(rng) if rng.random() < 0.6 else gen_shape(rng, rng.choice([1, 2, 2, 3])) for _ in range(p)]
+    npre, npost = rng.choice([(0, 0), (1, 1), (0, 1), (2, 0), (1, 2)])
+    nk = rng.choice([3, 4, 6, 8])
+    ls = [rand_list(rng, 6, nk)]
+    for _ in range(rng.randint(1, 5)):
+        ls.append(mutate(rng, ls[-1], nk) if rng.random() < 0.75 else rand_list(rng, 6, nk))
+    return dict(case=C.norm([20, npre, npost, ls, shapes]), kind="shaped-rows")
+
+
 def generate(rng, tier):
     maxlen, maxkeys = (6, 7) if tier == "quick" else (7, 8)
     variants = [(1, 0, 0), (2, 1, 1), (1, 0, 2), (2, 2, 0), (3, 1, 1), (1, 1, 0)]
@@ -126,6 +221,9 @@ def generate(rng, tier):
         for _ in range(rng.randint(1, 6)):
             ls.append(mutate(rng, ls[-1], nk) if rng.random() < 0.8 else rand_list(rng, 6, nk))
         yield dict(case=C.norm([mode, npre, npost, ls]), kind="leptos-For" if mode == 11 else "leptos-ForEnumerate")
+    # rows that are (or start with) keyed lists / Vec / Option / Either / tuples / arrays / StaticVec
+    for i in range(4000 if tier == "quick" else 40000):
+        yield gen_shaped(rng)
     n_rand = 6000 if tier == "quick" else 60000
     for i in range(n_rand):
         r = rng.random()
@@ -150,10 +248,14 @@ def generate(rng, tier):
 
 def valid_case(item):
     c = item["case"]
-    if not (isinstance(c, list) and len(c) == 4 and all(isinstance(x, int) for x in c[:3]) and isinstance(c[3], list)):
+    if not (isinstance(c, list) and len(c) in (4, 5) and all(isinstance(x, int) for x in c[:3]) and isinstance(c[3], list)):
         return False
-    m, npre, npost, ls = c
-    if m not in (1, 2, 3, 11, 12) or not (0 <= npre <= 4) or not (0 <= npost <= 4) or not ls:
+    m, npre, npost, ls = c[:4]
+    if (len(c) == 5) != (m == 20):
+        return False
+    if m == 20 and not (isinstance(c[4], list) and 1 <= len(c[4]) <= 4 and all(valid_shape(x) for x in c[4])):
+        return False
+    if m not in (1, 2, 3, 11, 12, 20) or not (0 <= npre <= 4) or not (0 <= npost <= 4) or not ls:
         return False
     for l in ls:
         if not isinstance(l, list) or any((not isinstance(k, int)) or k < 0 for k in l) or len(set(l)) != len(l):
@@ -162,13 +264,15 @@ def valid_case(item):
 
 
 # ---------------------------------------------------------------------------------------------- oracle
-def check_step(m, npre, npost, frm, to, before, old_gen, children, log):
+def check_step(js_of, npre, npost, frm, to, before, old_gen, children, log):
     """the property statement, checked directly on one observed update.
+    js_of(key) = the indices j of the visible nodes of that key's item, in order (range(m) for m-node items);
     before: labels (k,g,j) of the parent's children before the step; old_gen: key -> gen before the step.
     Returns (message or None, new key -> gen map)."""
     vis = [c for c in children if c[0] != -3]
-    if len(vis) != npre + m * len(to) + npost:
-        return "parent has %d non-comment children, expected %d" % (len(vis), npre + m * len(to) + npost), None
+    want = npre + sum(len(js_of(k)) for k in to) + npost
+    if len(vis) != want:
+        return "parent has %d non-comment children, expected %d" % (len(vis), want), None
 
     def same_node(c):
         return c[3] != -1 and 0 <= c[3] < len(before) and tuple(before[c[3]]) == tuple(c[:3])
@@ -186,10 +290,29 @@ def check_step(m, npre, npost, frm, to, before, old_gen, children, log):
     for e in log:
         if e[0] == 3:
             builds.setdefault(e[1], []).append(e[2])
+    pos = 0
     for idx, k in enumerate(to):
-        nodes = mid[idx * m:(idx + 1) * m]
-        if [c[0] for c in nodes] != [k] * m or [c[2] for c in nodes] != list(range(m)) or len({c[1] for c in nodes}) != 1:
-            return "rendered order is %r, expected %r" % ([c[0] for c in mid[::m]], to), None
+        js = js_of(k)
+        nodes = mid[pos:pos + len(js)]
+        pos += len(js)
+        built = builds.get(k, [])
+        if not js:
+            # an item without visible nodes (only markers / placeholders): nothing to see in the order
+            if k in old_gen:
+                new_gen[k] = old_gen[k]
+                if built:
+                    return "retained key %d was built again" % k, None
+            else:
+                if len(built) != 1:
+                    return "new key %d was built %d times" % (k, len(built)), None
+                new_gen[k] = built[0]
+            continue
+        if [c[0] for c in nodes] != [k] * len(js) or [c[2] for c in nodes] != js or len({c[1] for c in nodes}) != 1:
+            seen = []
+            for c in mid:
+                if not seen or seen[-1] != c[0]:
+                    seen.append(c[0])
+            return "rendered order (keys of the visible nodes) is %r, expected %r" % (seen, [x for x in to if js_of(x)]), None
         g = nodes[0][1]
         new_gen[k] = g
         if k in old_gen:
@@ -279,7 +402,12 @@ def check_for(mode, npre, npost, ls, impl):
 
 
 def oracle(item, impl):
-    m, npre, npost, ls = item["case"]
+    m, npre, npost, ls = item["case"][:4]
+    if m == 20:
+        shapes = [[j for j, v in enumerate(flatten(s)) if v] for s in item["case"][4]]
+        js_of = lambda k: shapes[k % len(shapes)]
+    else:
+        js_of = lambda k: list(range(m))
     if isinstance(impl, str):
         return "panic / harness error: " + impl
     if m in (11, 12):
@@ -292,7 +420,7 @@ def oracle(item, impl):
     old_gen, frm = {}, []
     for s, (to, step) in enumerate(zip(ls, impl)):
         children, log = step
-        msg, new_gen = check_step(m, npre, npost, frm, to, before, old_gen, children, log)
+        msg, new_gen = check_step(js_of, npre, npost, frm, to, before, old_gen, children, log)
         if msg:
             return "update %d (%r -> %r): %s" % (s, frm, to, msg)
         before = [tuple(c[:3]) for c in children]
@@ -305,8 +433,31 @@ def nontrivial(item, model):
     return any(a != b for a, b in zip(ls, ls[1:]))
 
 
+def show_shape(s):
+    t, a = s[0], s[1:]
+    if t == 0:
+        return "text"
+    if t == 1:
+        return "()"
+    if t == 2:
+        return "<span>"
+    if t == 3:
+        return "(" + ", ".join(show_shape(x) for x in a) + ")"
+    if t in (4, 5, 9, 10):
+        return {4: "keyed", 5: "vec!", 9: "array", 10: "StaticVec"}[t] + "[" + ", ".join(show_shape(x) for x in a) + "]"
+    if t == 6:
+        return "Some(" + show_shape(a[0]) + ")" if a else "None"
+    if t == 7:
+        return ("Left(" if a[0] == 0 else "Right(") + show_shape(a[1]) + ")"
+    return "EitherOf3::" + "ABC"[a[0]] + "(" + show_shape(a[1]) + ")"
+
+
 def describe(item):
-    m, npre, npost, ls = item["case"]
+    m, npre, npost, ls = item["case"][:4]
+    if m == 20:
+        sh = item["case"][4]
+        return "keyed list whose row for key k is shape[k mod %d] of {%s}, %d leading / %d following siblings: %s" % (
+            len(sh), " ; ".join(show_shape(x) for x in sh), npre, npost, " -> ".join(str(l) for l in ls))
     if m in (11, 12):
         return "leptos %s with stateful rows, %d leading / %d following siblings: %s" % (
             "<For>" if m == 11 else "<ForEnumerate>", npre, npost, " -> ".join(str(l) for l in ls))
